@@ -3,7 +3,7 @@
    arbitrary history `ops` of create/get/put/destroy/refcount/iterate calls with arbitrary
    (issued, stale, never-issued, no-check) handle values. *)
 From Coq Require Import ZArith List.
-Require Import Verif.gen.Consts_hdb Verif.HdbModel Verif.HdbProofs Verif.HdbProofs2.
+Require Import Verif.gen.Consts_hdb Verif.HdbModel Verif.HdbProofs Verif.HdbProofs2 Verif.HdbIter.
 Import ListNotations.
 Local Open Scope Z_scope.
 
@@ -86,6 +86,15 @@ Theorem C20_get_resolves_until_destroy : forall d h x,
 Proof. exact owns_get. Qed.
 Print Assumptions C20_get_resolves_until_destroy.
 
+(* iteration (reset, then next until it fails) returns precisely the objects that have not been destroyed
+   (slots in state ACTIVE), each once, in slot order - after every history whose check words are in random()'s range *)
+Theorem C20_iteration_visits_exactly_undestroyed : forall ops,
+  Forall create_in_range ops ->
+  let d := fst (run hdb_init ops) in
+  iterate (S (length (slots d))) (fst (step d IterReset)) = undestroyed d.
+Proof. exact iteration_complete_all_histories. Qed.
+Print Assumptions C20_iteration_visits_exactly_undestroyed.
+
 (* the repaired defect, kept as a refutation of the pre-fix validation (see known_findings.json) *)
 Theorem C20_unfixed_validation_refuted :
   exists ops h, dead_for h (fst (run hdb_init ops)) /\ lookup_unfixed (fst (run hdb_init ops)) h <> None.
@@ -97,3 +106,5 @@ Example C20_ex_stale_is_dead : dead_for (mk_handle 11 0) (fst (run hdb_init ex_o
 Proof. exact ex_stale_is_dead. Qed.
 Example C20_ex_owner : owns (fst (run hdb_init ex_ops)) (mk_handle 13 0) 3 /\ owns (fst (run hdb_init ex_ops)) (mk_handle 12 1) 2.
 Proof. exact ex_owner. Qed.
+Example C20_ex_iteration : iterate 10 (fst (step (fst (run hdb_init ex_ops)) IterReset)) = [3; 2].
+Proof. exact ex_iteration. Qed.
